@@ -139,6 +139,10 @@ class C01(WithEL):
                 scn["cfg"]["duration"] += 2 ** 31
         elif r.random() < 0.25:
             scn = simgen.make_fine(scn)
+        elif r.random() < 0.25:
+            scn = simgen.make_decimal(scn)
+        elif r.random() < 0.3:
+            scn = simgen.make_bigint(scn, r)
         return scn
 
     def obs(self, case, res):
@@ -456,6 +460,8 @@ class C03(WithEL):
 
     def tweak(self, r, scn):
         scn["cfg"]["delay"] = r.choice([0, 1024, 1024, 2048])
+        if r.random() < 0.2:
+            scn = simgen.make_decimal(scn)       # ties among non-dyadic times (timers and zero-delay messages)
         return scn
 
     # -- the Lean port of heapq.py against CPython's heapq (validates the transcription the
@@ -830,6 +836,8 @@ class C07(SimCheck):
     def tweak(self, r, scn):
         if scn["cfg"]["hasMob"] and r.random() < 0.6:
             simgen.set_handler(scn["cfg"], "mobility", False)
+        if r.random() < 0.2:
+            scn = simgen.make_decimal(scn)       # timers at non-dyadic times, set at every moment of the run
         return scn
 
     def obs(self, case, res):
